@@ -83,6 +83,19 @@ def apply_op(g, op):
         g.copy_layers_from(other)
     elif k == 'sn': g.snap_columns_to_layers(float(op[1]), list(op[2]))
     elif k == 'sr': g.snap_columns_to_nearest_layers(list(op[1]))
+    elif k == 'fs':
+        # the fitted elevations are a hint for the model: fit_columns (least squares on a copy of the geometry, floating
+        # point, summation order depends on set iteration) is observed through a recording wrapper while fit_surface runs
+        rec, orig = [], g.fit_columns
+        def recording(*a, **kw):
+            r = orig(*a, **kw)
+            rec.append([float(z) for z in r])
+            return r
+        g.fit_columns = recording
+        try: g.fit_surface(np.array([[float(v) for v in d] for d in op[2]]), columns=list(op[1]), layer_snap=float(op[3]), silent=True)
+        finally:
+            del g.fit_columns
+            g._c10_fit = rec[-1] if rec else []
     elif k == 'tl': g.translate([float(op[1]), float(op[2]), float(op[3])])
     elif k == 'ro': g.rotate(float(op[1]))
     else: raise RuntimeError('unknown op %r' % (op,))
@@ -116,6 +129,7 @@ def encode_op(op):
     if k == 'cl': return 'cl' + ''.join(',%s,%s,%s,%s' % (hx(n), qs(b), qs(c), qs(t)) for (n, b, c, t) in op[1])
     if k == 'sn': return 'sn,%s,%s' % (qs(op[1]), names(op[2]))
     if k == 'sr': return 'sr,%s' % names(op[1])
+    if k == 'fs': return 'fs,%s,%s,%s' % (names(op[1]), '.'.join(qs(z) for z in op[2]), qs(op[3]))       # op[2]: the fitted elevations (hint)
     if k == 'tl': return 'tl,%s,%s,%s' % (qs(op[1]), qs(op[2]), qs(op[3]))
     if k == 'mv': return 'mv,%s,%s' % ('.'.join('%s:%s' % (qs(x), qs(y)) for x, y in op[1]), '.'.join('%s:%s' % (qs(x), qs(y)) for x, y in op[2]))
     raise RuntimeError('unknown op %r' % (op,))
@@ -128,7 +142,7 @@ OP_METHOD = {'an': 'add_node', 'dn': 'delete_node', 'ac': 'add_column', 'dc': 'd
              'ss': 'set_surface', 'nl': 'set_column_num_layers', 'sb': 'setup_block_name_index',
              'sk': 'setup_block_connection_name_index', 'cf': 'check', 'rd': 'reduce', 'rf': 'refine', 'tr': 'triangulate_column',
              'de': 'decompose_columns', 'ry': 'refine_layers', 'cl': 'copy_layers_from', 'sn': 'snap_columns_to_layers',
-             'sr': 'snap_columns_to_nearest_layers', 'tl': 'translate', 'ro': 'rotate', 'mv': 'rotate'}
+             'sr': 'snap_columns_to_nearest_layers', 'fs': 'fit_surface', 'tl': 'translate', 'ro': 'rotate', 'mv': 'rotate'}
 
 
 # ----------------------------------------------------------------------------------------------
@@ -387,6 +401,7 @@ def post_hints(g, op, h):
     if k == 'rf': return ('rf', list(op[1]), h.get('hk', []), h.get('hb', []), h.get('hc', []), new_keys)
     if k == 'de': return ('de', list(op[1]), h.get('hs', []), new_keys)
     if k == 'ro': return ('mv', [(n.pos[0], n.pos[1]) for n in g.nodelist], [(c.centre[0], c.centre[1]) for c in g.columnlist])
+    if k == 'fs': return ('fs', list(op[1]), list(getattr(g, '_c10_fit', [])), op[3])
     return op
 
 
@@ -402,10 +417,11 @@ def failed_hints(g, op, h):
     if k == 'rf': return ('rf', list(op[1]), h.get('hk', []), h.get('hb', []), h.get('hc', []), new_keys)
     if k == 'de': return ('de', list(op[1]), h.get('hs', []), new_keys)
     if k == 'ro': return ('mv', [], [])
+    if k == 'fs': return ('fs', list(op[1]), list(getattr(g, '_c10_fit', [])), op[3])
     return op
 
 
-HINTED = ('cf', 'rd', 'rf', 'de', 'ro')
+HINTED = ('cf', 'rd', 'rf', 'de', 'ro', 'fs')
 
 
 def apply_op_h(g, op):
@@ -420,6 +436,18 @@ def apply_op_h(g, op):
 
 
 COMPOUND = ('cf', 'rd', 'rf', 'tr', 'de')
+
+
+def layers_descend(g):
+    """hypothesis of the snap / fit_surface theorems: the layers below the atmosphere layer lie one below the other"""
+    b = [l.bottom for l in g.layerlist[1:]]
+    return all(b[i + 1] < b[i] for i in range(len(b) - 1))
+
+
+def layers_stacked(g):
+    ls = g.layerlist[1:]
+    return all(l.bottom < l.top for l in ls) and all(ls[j].top <= ls[i].bottom for i in range(len(ls)) for j in range(i + 1, len(ls)))
+
 
 
 def mesh_defect_sets(g):
